@@ -77,9 +77,12 @@ def fr(q):
     return Fraction(int(q[0]), int(q[1]))
 
 
+UNITS = (1.0, 1e-3, 1e-6, 1e-9, 1e-12)     # watts per model unit of power: the ledger laws are homogeneous in power
+
+
 def launch_si(powers):
     """the three model channels as carriers of DIFFERENT symbol rates and slot widths (the ledger laws do not depend on
-    them; nothing in the code may either)"""
+    them; nothing in the code may either); powers in watts"""
     from gnpy.core.info import create_arbitrary_spectral_information
     n = len(powers)
     return create_arbitrary_spectral_information(frequency=[F1 + SPACING * k for k in range(n)],
@@ -92,13 +95,15 @@ def ids_of(si):
     return [int(round((f - F1) / SPACING)) + 1 for f in si.frequency]
 
 
-def apply_step(parts, step, variant):
+def apply_step(parts, step, variant, unit=1.0):
     """drive the real objects through one model operation; returns the new list of spectra"""
     from gnpy.core.info import demuxed_spectral_information, muxed_spectral_information, select_channels
     op, j = step['op'], step['j']
     if op in ('Scale', 'AddASE', 'AddNLI'):
         si = parts[j - 1]
         vec = np.array([float(fr(step['arg'][c - 1])) for c in ids_of(si)])
+        if op != 'Scale':
+            vec = vec * unit                # powers are expressed in the model's unit; factors are pure numbers
         if op == 'Scale':
             if variant == 0:
                 si.apply_attenuation_lin(vec)
@@ -134,7 +139,7 @@ LEDGER = (('pch', 'P'), ('signal', 'S'), ('ase', 'A'), ('nli', 'N'))
 FIGURES = (('snr_lin', 0), ('snr_nli', 1), ('gsnr', 2))       # reciprocal of: 1/OSNR_ASE, 1/SNR_NLI, 1/GSNR in step['q']
 
 
-def compare(parts, step, worst, what):
+def compare(parts, step, worst, what, unit=1.0):
     """None when the real spectra carry exactly what the model printed for this step, else a short description.
     what = 'ledger': (pch, signal, ase, nli) against the exact (P, S, A, N);
     what = 'figures': the figures of merit the code derives (snr_lin, snr_nli, gsnr) against the exact reciprocals"""
@@ -151,7 +156,7 @@ def compare(parts, step, worst, what):
                       for name, key in LEDGER[1:]]
             for name, key, got in views:
                 for k, ch in enumerate(exp):
-                    e = float(fr(ch[key]))
+                    e = float(fr(ch[key])) * unit
                     d = abs(got[k] - e)
                     if e != 0:
                         worst[0] = max(worst[0], d / abs(e))
@@ -181,7 +186,8 @@ def replay(chk, behaviours, what='ledger'):
         if key in seen:
             continue
         seen.add(key)
-        powers = [Fraction(1), Fraction(2), Fraction(4)]
+        unit = UNITS[key % len(UNITS)]          # from watts down to picowatts per model unit
+        powers = [float(p) * unit for p in (1, 2, 4)]
         ok = True
         try:
             parts = [launch_si(powers)]
@@ -189,18 +195,18 @@ def replay(chk, behaviours, what='ledger'):
             for n, step in enumerate(hist):
                 if step['op'] == 'Demux' and len(parts) == 1:
                     source = parts[0]
-                parts = apply_step(parts, step, (key + n) % 4)
+                parts = apply_step(parts, step, (key + n) % 4, unit)
                 if step['op'] == 'Mux':
                     source = None
                 steps += 1
-                bad = compare(parts, step, worst, what)
+                bad = compare(parts, step, worst, what, unit)
                 if not bad and what == 'ledger' and source is not None:
-                    bad = compare([source], dict(parts=[step['src']]), worst, 'ledger')
+                    bad = compare([source], dict(parts=[step['src']]), worst, 'ledger', unit)
                     bad = bad and 'source spectrum of the extraction: ' + bad
                 if bad:
                     prev = hist[n - 1]['op'] if n else 'Launch'
                     chk.violation(f'B2|{step["op"]}|after-{prev}|{what}-differ-from-model',
-                                  dict(ops=[(s['op'], s['j']) for s in hist[:n + 1]], step=n + 1, difference=bad,
+                                  dict(ops=[(s['op'], s['j']) for s in hist[:n + 1]], step=n + 1, difference=bad, watts_per_unit=unit,
                                        arg=step['arg']))
                     ok = False
                     break
